@@ -202,3 +202,64 @@ Definition first_bad_def (p : prog) : string :=
   | Some d => show_ident (dname d)
   | None => ""
   end.
+
+(* ---------- operands stay available (C05, last sentence) ---------- *)
+(* threads the context like lin_check; at op / print / ifc / exit the operands must be in the
+   environment that is PASSED ON to the continuation(s) *)
+Fixpoint ops_kept (c : ctx) (s : stmt) : bool :=
+  match s with
+  | Substitute re next => ops_kept (map fst re) next
+  | Call _ _ | Invoke _ _ _ _ => true
+  | Let v t _ args next =>
+      match split_lastn (List.length args) c with
+      | Some (c0, _) => ops_kept (c0 ++ [mkb v Prd t]) next
+      | None => false
+      end
+  | Switch _ _ cls =>
+      match split_lastn 1 c with
+      | Some (c0, _) =>
+          (fix go (cls : list (ident * ctx * stmt)) : bool :=
+             match cls with
+             | [] => true
+             | (_, cc, body) :: r => ops_kept (c0 ++ cc) body && go r
+             end) cls
+      | None => false
+      end
+  | Create v t (Some env) cls next =>
+      match split_lastn (List.length env) c with
+      | Some (c0, _) =>
+          (fix go (cls : list (ident * ctx * stmt)) : bool :=
+             match cls with
+             | [] => true
+             | (_, cc, body) :: r => ops_kept (cc ++ env) body && go r
+             end) cls
+          && ops_kept (c0 ++ [mkb v Cns t]) next
+      | None => false
+      end
+  | Create _ _ None _ _ => false
+  | Literal _ v next => ops_kept (c ++ [mkb v Ext I64]) next
+  | Op a _ b v next =>
+      let c' := c ++ [mkb v Ext I64] in has_ext c' a && has_ext c' b && ops_kept c' next
+  | PrintI64 _ v next => has_ext c v && ops_kept c next
+  | IfC _ a b t e =>
+      has_ext c a && match b with Some b => has_ext c b | None => true end
+      && ops_kept c t && ops_kept c e
+  | Exit v => has_ext c v
+  end.
+
+(* binders other than the targets of explicit substitutions *)
+Fixpoint binders_ns (s : stmt) : list N :=
+  let bcs := fix go (cls : list (ident * ctx * stmt)) : list N :=
+    match cls with
+    | [] => []
+    | (_, cc, b) :: r => ids cc ++ binders_ns b ++ go r
+    end in
+  match s with
+  | Substitute _ next => binders_ns next
+  | Call _ _ | Invoke _ _ _ _ | Exit _ => []
+  | Let v _ _ _ next | Literal _ v next | Op _ _ _ v next => idn v :: binders_ns next
+  | Switch _ _ cls => bcs cls
+  | Create v _ _ cls next => idn v :: bcs cls ++ binders_ns next
+  | PrintI64 _ _ next => binders_ns next
+  | IfC _ _ _ t e => binders_ns t ++ binders_ns e
+  end.
